@@ -802,10 +802,13 @@ func (s *Server) readPQClientRequestHidden(hs *HandshakeState, b []byte) (int, e
 		rawLeaf, rawIntermediate, remoteEphemeralBytes []byte
 		c                                              *Certificate
 	)
-	bufCopy := make([]byte, len(b))
+	scratch := make([]byte, len(b))
+	var bufCopy []byte
 
 	for _, cert := range certList {
-		// Copy buffer for processing
+		// Copy buffer for processing. bufCopy is re-sliced while parsing, so
+		// every trial starts again from the full scratch buffer.
+		bufCopy = scratch
 		copy(bufCopy, b)
 
 		// Recreate duplex at each VM loop
